@@ -101,7 +101,11 @@ func git(repo string, args ...string) error {
 const otherFile = "somefile.go" // a non-Thrift file that carries Thrift-looking text
 
 // commitVersion makes the work tree equal to v (plus the other file) and commits.
-func commitVersion(repo string, v []FileText, other, msg string) error {
+func commitVersion(repo string, v []FileText, other, msg string, execPaths []string) error {
+	isExec := map[string]bool{}
+	for _, p := range execPaths {
+		isExec[p] = true
+	}
 	entries, err := os.ReadDir(repo)
 	if err != nil {
 		return envErrf("%v", err)
@@ -123,7 +127,14 @@ func commitVersion(repo string, v []FileText, other, msg string) error {
 		if err := os.MkdirAll(filepath.Dir(p), 0o755); err != nil {
 			return envErrf("%v", err)
 		}
-		if err := os.WriteFile(p, []byte(f.Text), 0o644); err != nil {
+		mode := os.FileMode(0o644)
+		if isExec[f.Path] {
+			mode = 0o755 // recorded by git as tree mode 100755 (core.fileMode)
+		}
+		if err := os.WriteFile(p, []byte(f.Text), mode); err != nil {
+			return envErrf("%v", err)
+		}
+		if err := os.Chmod(p, mode); err != nil { // whatever the umask is
 			return envErrf("%v", err)
 		}
 	}
@@ -142,6 +153,7 @@ func newRepo(root string) (string, error) {
 		{"-c", "init.defaultBranch=main", "init", "-q"},
 		{"config", "user.name", "verif"},
 		{"config", "user.email", "verif@example.invalid"},
+		{"config", "core.fileMode", "true"},
 	} {
 		if err := git(repo, args...); err != nil {
 			os.RemoveAll(repo)
@@ -149,6 +161,40 @@ func newRepo(root string) (string, error) {
 		}
 	}
 	return repo, nil
+}
+
+// checkModes makes sure (harness sanity, not a verdict) that HEAD~ and HEAD
+// record the executable bit exactly for the paths of c.Exec they contain.
+func checkModes(repo string, c Case, versions [2][]FileText) error {
+	for i, rev := range []string{"HEAD~", "HEAD"} {
+		cmd := exec.Command("git", "ls-tree", "-r", rev)
+		cmd.Dir = repo
+		cmd.Env = gitEnv(filepath.Dir(repo))
+		out, err := cmd.Output()
+		if err != nil {
+			return envErrf("git ls-tree %s: %v", rev, err)
+		}
+		var got []string
+		for _, line := range strings.Split(strings.TrimSpace(string(out)), "\n") {
+			// <mode> SP <type> SP <hash> TAB <path>
+			if tab := strings.IndexByte(line, '\t'); tab > 0 && strings.HasPrefix(line, "100755 ") {
+				got = append(got, line[tab+1:])
+			}
+		}
+		var want []string
+		for _, p := range c.Exec[i] {
+			_, in := textOf(versions[i], p)
+			if in || (p == otherFile && c.Other[i] != "") {
+				want = append(want, p)
+			}
+		}
+		sort.Strings(got)
+		sort.Strings(want)
+		if strings.Join(got, "\n") != strings.Join(want, "\n") {
+			return envErrf("%s records the executable bit for %v, the case wants %v", rev, got, want)
+		}
+	}
+	return nil
 }
 
 // ---------------------------------------------------------------- running thriftbreak
@@ -448,11 +494,20 @@ func checkCase(root string, c Case) error {
 		}{"reordered", c.OldAlt, c.NewAlt})
 	}
 	for i, r := range rounds {
-		if err := commitVersion(repo, r.old, c.Other[0], "base "+r.name); err != nil {
+		if err := commitVersion(repo, r.old, c.Other[0], "base "+r.name, c.Exec[0]); err != nil {
 			return err
 		}
-		if err := commitVersion(repo, r.new, c.Other[1], "edit "+r.name); err != nil {
+		if err := commitVersion(repo, r.new, c.Other[1], "edit "+r.name, c.Exec[1]); err != nil {
 			return err
+		}
+		if err := checkModes(repo, c, [2][]FileText{r.old, r.new}); err != nil {
+			return err
+		}
+		if c.Packed {
+			// loose objects and refs become a pack and packed-refs
+			if err := git(repo, "gc", "-q"); err != nil {
+				return err
+			}
 		}
 		// two independent processes per round: Go randomises map iteration per
 		// process, so each run walks services/types in its own order.
